@@ -14,6 +14,7 @@
 package main
 
 import (
+	"regexp"
 	"encoding/json"
 	"flag"
 	"fmt"
@@ -125,7 +126,10 @@ func runTotal(c, s string) (isErr bool) {
 		// the whole pipeline: the numbers read from the attributes (colspan / rowspan / span, start, size ...)
 		// are USED by the table grid and the layout; a value outside what that code expects crashes there
 		// (job.X = 1: box generation only -- documents asking for a 1000-column grid, whose layout takes seconds)
-		if !noLayout {
+		// ... and documents carrying astronomic numbers (>= 6 digits, or an exponent: border="1e400",
+		// width="99999999999"): sizes of that magnitude make layout slow / hang / exhaust memory, which is
+		// property C01's subject (known findings C01/hang-*-astronomic-*, C01/oom-*), not an attribute reader's.
+		if !noLayout && !astronomicNumber.MatchString(s) {
 			_ = layout.Layout(doc, nil, true, workerFonts())
 		}
 		return false
@@ -479,6 +483,8 @@ func loadCorpus(dir string) []job {
 }
 
 // ---------------------------------------------------------------- main
+
+var astronomicNumber = regexp.MustCompile(`(?i)[0-9]{6,}|[0-9]e\+?[0-9]`)
 
 func main() {
 	if vlib.IsWorker() {
